@@ -495,7 +495,7 @@ def zip_structure(prog, body, it, counter=None):
     name = "e%d" % counter[0]
     counter[0] += 1
     from .rules_layout import producer_chain
-    rb, re_, chain, bad = producer_chain(prog, body, it)
+    rb, re_, chain, bad = producer_chain(prog, body, it, stop_at_field=True)
     if bad is not None:
         raise Unrecognised("producer goes through `%s`" % bad)
     return name, [(rb, ds(re_))]
